@@ -215,5 +215,6 @@ def check_c14_maximal(ctx, sched, now, task_pl, offered):
                                      "has_unfinished_parent": any(ps is not None and ps.task.state.name not in
                                                                   ("COMPLETED", "CANCELLED")
                                                                   for _, ps in ctx.parent_shadows(s)),
-                                     "zero_runtime": rt == 0})
+                                     "zero_runtime": rt == 0,
+                                     "unplaced_task_is_sink": not ctx.children.get(s.base, {}).get(s.node)})
                         return
